@@ -50,7 +50,8 @@ pub fn stage(seed: u64, timeout: i32) -> Result<NetWorld, Fail> {
             nw.client_recv(P, &b);
         }
     }
-    if !nw.clients[P].client.is_connecting() || nw.servers[0].server.verif_pending_addrs() != vec![client_addr(P)] {
+    // (the server's table of half-open sessions is an internal detail: staging does not depend on it)
+    if !nw.clients[P].client.is_connecting() {
         return Err(Fail::new("stage", "could not stage the pending session"));
     }
     Ok(nw)
@@ -62,6 +63,8 @@ pub enum Target {
     ServerFromPending,
     ServerFromConnected,
     ServerFromBystander,
+    /// the address of the client that connected and disconnected cleanly (no session, no half-open handshake)
+    ServerFromGone,
     Client(usize),
 }
 
@@ -83,6 +86,7 @@ impl Target {
             Target::ServerFromPending => client_addr(P),
             Target::ServerFromConnected => client_addr(C),
             Target::ServerFromBystander => client_addr(B),
+            Target::ServerFromGone => client_addr(D),
             Target::Client(_) => server_addr(0),
         }
     }
@@ -517,7 +521,7 @@ impl C07 {
                         ctx.nontrivial = true;
                     }
                     ctx.label(match target {
-                        Target::ServerFromUnknown => "at_unknown",
+                        Target::ServerFromUnknown | Target::ServerFromGone => "at_unknown",
                         Target::ServerFromPending => "at_pending",
                         Target::ServerFromConnected | Target::ServerFromBystander => "at_connected",
                         Target::Client(_) => "at_client",
@@ -626,6 +630,30 @@ fn replayed_reply(index: u64, ctx: &mut Ctx) -> Outcome {
         present_forged(&mut nw, Target::Client(c), &bytes, &format!("the server's own datagram of kind {kind}, delivered once before, presented again {} ms later (round {round})", dt.as_millis()))?;
     }
     ctx.label("replayed_reply");
+    ctx.nontrivial = true;
+    Ok(())
+}
+
+/// The response that completed a client's handshake - delivered once, consumed - is presented to the server again from that client's
+/// own address after some time: while the session it opened is alive (bystander, victim) and after it ended cleanly (the gone client).
+/// A datagram presented for the second time is not authentic: no client connects, nothing changes, no timeout is refreshed.
+fn replayed_response(index: u64, ctx: &mut Ctx) -> Outcome {
+    let dt = Duration::from_millis([300u64, 1000, 3000][(index % 3) as usize]);
+    let (c, target) = [(B, Target::ServerFromBystander), (C, Target::ServerFromConnected), (D, Target::ServerFromGone)][((index / 3) % 3) as usize];
+    let times = 1 + (index / 9) % 2;
+    let mut nw = stage(7, 15)?;
+    ctx.op(&("replayed_response", c, dt.as_millis() as u64, times));
+    let Some(did) = nw.pool.iter().rposition(|d| d.kind == 3 && d.src == client_addr(c) && d.presented > 0 && matches!(d.from, Emitter::Client(_))) else {
+        return Err(Fail::new("stage", format!("no delivered response of client {c} in the staged world")).sig("harness_io"));
+    };
+    let bytes = nw.pool[did].bytes.clone();
+    for round in 0..times {
+        // time passes on the server's clock only (the clients' own traffic is withheld, so they are not touched)
+        nw.now += dt;
+        nw.server_advance(0, dt);
+        present_forged(&mut nw, target, &bytes, &format!("the response that completed the handshake of client {c}, presented again {} ms later (round {round})", dt.as_millis()))?;
+    }
+    ctx.label("replayed_response");
     ctx.nontrivial = true;
     Ok(())
 }
@@ -758,11 +786,11 @@ impl Property for C07 {
         PbtCfg { cases: tier.pick(150_000, 3_000_000), max_len: tier.pick(600, 1800), shrink_ms: 120_000 }
     }
     fn required_labels(&self) -> Vec<&'static str> {
-        vec!["keyed_path", "at_unknown", "at_pending", "at_connected", "at_client", "token_case", "token_parsed", "token_many_entries", "sealed_token_case", "sealed_token_answered", "sealed_token_connected", "flood", "sealed_body", "preempted_request", "replayed_reply"]
+        vec!["keyed_path", "at_unknown", "at_pending", "at_connected", "at_client", "token_case", "token_parsed", "token_many_entries", "sealed_token_case", "sealed_token_answered", "sealed_token_connected", "flood", "sealed_body", "preempted_request", "replayed_reply", "replayed_response"]
     }
     fn enums(&self, _tier: Tier) -> Vec<(&'static str, u64)> {
         // genuine_tamper: 8 sample datagrams x (every bit of the first 360 bytes + every truncation up to 360)
-        vec![("prefix_length_grid", 256 * 13 * 2 * 7), ("genuine_tamper", 8 * (360 * 8 + 360)), ("floods", 13 * 2 * 7), ("sealed_bodies", 4 * 15 * SEALED_LENS.len() as u64), ("preempted_request", 3 * 130), ("replayed_reply", 12)]
+        vec![("prefix_length_grid", 256 * 13 * 2 * 7), ("genuine_tamper", 8 * (360 * 8 + 360)), ("floods", 13 * 2 * 7), ("sealed_bodies", 4 * 15 * SEALED_LENS.len() as u64), ("preempted_request", 3 * 130), ("replayed_reply", 12), ("replayed_response", 18)]
     }
     fn run_enum(&self, name: &str, index: u64, ctx: &mut Ctx) -> Outcome {
         if name == "genuine_tamper" {
@@ -776,6 +804,9 @@ impl Property for C07 {
         }
         if name == "replayed_reply" {
             return replayed_reply(index, ctx);
+        }
+        if name == "replayed_response" {
+            return replayed_response(index, ctx);
         }
         if name == "floods" {
             // the same endpoint is handed all 256 prefix bytes twice in a row (512 hostile datagrams, nothing genuine in between):
